@@ -174,6 +174,7 @@ def run(ctx):
     roundtrip(ctx, c, t0, t1, reader, param_rows, defs)
     literals(ctx, c)
     commands(ctx, c)
+    symbol_binding(ctx)
     aborts(ctx)
 
 
@@ -416,6 +417,32 @@ def commands(ctx, c):
         ctx.inst("R14.4", "command:%s" % vn, back == vn, f["span"], "SmtCommand::%s is written as `%s`, which parse_command reads as %s" % (vn, wtok, back if wtok in rows else "an unknown command (error)"),
                  sample={"command": vn, "written": wtok, "read_back": back})
     ctx.extra["reader_command_names"] = rows
+
+
+def symbol_binding(ctx):
+    """read_command (re)binds the symbol of every declare/define command unconditionally, under its own name"""
+    ctx.rule("R14.6", "read_command binds the symbol introduced by declare-const/define-fun in the symbol table unconditionally (a re-declaration after pop replaces the old binding), keyed by the symbol's own name")
+    f = ctx.fn("patronus", Pm + "read_command")
+    ix = Index(f["body"])
+    P = {name: i for p in f["params"] for name, i in pat_bindings(p)}
+    ins = [n for n in ix.nodes if n.get("k") == "mcall" and n["name"] in ("insert", "entry", "or_insert", "or_insert_with", "try_insert") and is_local(n["recv"], P.get("st"))]
+    ok = len(ins) == 1 and ins[0]["name"] == "insert"
+    why = "expected exactly one st.insert(..) in read_command, found %s" % [show(n)[:60] for n in ins]
+    if ok:
+        n = ins[0]
+        arms = [a for a in ix.ancestors(n) if a.get("k") == "match"]
+        ifs = [a for a in ix.ancestors(n) if a.get("k") == "if"]
+        ok = len(arms) == 1 and not ifs
+        why = "the binding is conditional (%s): re-declaring a name after pop would keep the stale symbol" % [show(a["cond"])[:60] for a in ifs]
+        if ok:
+            arm = [a for a in arms[0]["arms"] if contains(a["body"], n)][0]
+            vs = sorted(vname(variant_pat(alt)[0]) for alt in pat_alts(arm["pat"]) if variant_pat(alt))
+            binds = {i for _, i in pat_bindings(arm["pat"])}
+            val = peel(n["args"][1])
+            key = show(n["args"][0]).replace(" ", "")
+            ok = vs == ["DeclareConst", "DefineConst"] and val.get("k") == "local" and val["id"] in binds and key == "ctx.get_symbol_name(%s).unwrap().into()" % val["name"]
+            why = "the symbol-table update is `%s` in the arm for %s" % (show(n)[:100], vs)
+    ctx.inst("R14.6", "read_command:bind-declared-symbol", ok, f["span"], why, sample=show(ins[0])[:100] if ins else None)
 
 
 ALLOW = {
